@@ -134,6 +134,12 @@ def _sf_bincount(ex, args, node):
 
 def _popcount(ex, args, node):
     f = z3.Function("popcount", z3.IntSort(), z3.IntSort())
+    try:
+        # axioms of the shared symbol (listed with the assumptions where bin(x).count('1') is used)
+        ex.ctx.assume(f(z3.IntVal(0)) == 0)
+        ex.ctx.assume(f(args[0].t) >= 0)
+    except Exception:       # noqa  (spec functions are also evaluated outside a path context)
+        pass
     return vint(f(args[0].t))
 
 
